@@ -323,6 +323,15 @@ def main():
                                                                                            val(req, [60 + i for i in range(len(dd['defaults']))])))
                 if dd['nreq']:
                     T.append('raises("%s.%s too few", lambda: k.%s(), "TypeError")' % (n, dd['name'], dd['name']))
+        # coercion constructors: the implicit one converts an argument, the explicit one never does
+        T.append('u = M.PtUser()')
+        T.append('expect("explicit constructor called directly", lambda: (M.Pt(5).get_x(), M.Pt(5).get_y(), M.Pt(5, 6).get_y()), (5, 0, 6))')
+        T.append('expect("object argument", lambda: u.px(M.Pt(3, 4)), 304)')
+        T.append('expect("argument converted by the implicit constructor", lambda: u.px("abc"), 299)')
+        for a_ in ('5', '(5, 6)', '(5,)', '2.5', 'None'):
+            T.append('raises("argument %s offered to a const Pt & parameter (only an explicit constructor could take it)", lambda: u.px(%s), "TypeError")' % (a_, a_))
+        T.append('expect("rejected calls did not run", lambda: u.calls(), 2)')
+        T.append('del u')
         # item assignment on a fixed-size sequence: every index from -size-1 to size+1
         T.append('b = M.Buf()')
         T.append('expect("sequence read", lambda: (len(b), list(b)), (4, [10, 11, 12, 13]))')
@@ -421,7 +430,7 @@ def main():
                       'Non-trivial = library whose every call agreed')
     ck.assumptions += ['CPython %s is the interpreter; the module is built against shim register_type.h/dconfig.h kept in harness/shims' % sys.version.split()[0],
                        'no sanitizer inside the interpreter process: memory errors are seen as crashes or wrong live-object counts only',
-                       'coercion constructors, item assignment, bytes/None arguments for pointers are not generated']
+                       'bytes/None arguments for pointers are not generated; coercion is exercised on one class (implicit string constructor, explicit (int, int = 0) constructor)']
     ck.finish()
 
 
